@@ -21,7 +21,11 @@ from ..common import MachineryError, NCPU
 from .. import build, tlc, run
 from . import _idbm
 
-CFGS = {"quick": ["Idb_quick", "Idb_quick_m"], "thorough": ["Idb_thorough", "Idb_thorough_b", "Idb_thorough_m"]}
+CFGS = {"quick": ["Idb_quick", "Idb_quick_m", "Idb_quick_f"],
+        "thorough": ["Idb_thorough", "Idb_thorough_b", "Idb_thorough_m", "Idb_thorough_f"]}
+# Idb_quick   : 3 libraries x 2 type names, every content, database-mode requests, every order and query pattern
+# Idb_quick_m : both request modes freely mixed (e.g. module, database, module all pending before one query)
+# Idb_quick_f : as _m, with empty, missing and out-of-date files anywhere in the history
 BATCH = 150
 
 
@@ -47,7 +51,7 @@ def script_for(cid, beh, cdir):
     lines, exp = ["case %s" % cid], []
     for st in beh["hist"]:
         if st["op"] == "R":
-            path = os.path.join(cdir, st["lib"] + ".in")
+            path = os.path.join(cdir, st["lib"] + (".missing.in" if st["bad"] == "missing" else ".in"))
             if st["mode"] == "mod":
                 lines.append("reqmod %s %d" % (path, st["n"]))
             else:
@@ -57,7 +61,7 @@ def script_for(cid, beh, cdir):
             for kind in sorted(st["lk"]):
                 for name in sorted(st["lk"][kind]):
                     lines.append("lookup %s %s" % (kind, name))
-                    exp.append(("L", kind, name, st["lk"][kind][name]))
+                    exp.append(("L", kind, name, st["lk"][kind][name], st["err"]))
             lines.append("proj")
             exp.append(("Q", st))
     lines.append("end")
@@ -74,13 +78,15 @@ def compare(beh, exp, got, P, ck):
     if len(steps) != len(exp):
         return ("steps", len(exp), len(steps))
     for e, g in zip(exp, steps):
-        if g.get("err"):
-            return ("error flag set at step %d (%s)" % (g["k"], g["op"]), 0, g["err"])
         if e[0] == "R":
             st = e[1]
+            if g["err"] != (1 if st["err"] else 0):
+                return ("Request(%s,%s): error flag" % (st["lib"], st["mode"]), st["err"], g["err"])
             if (g["nreq"], g["next"]) != (st["nreq"], st["next"]):
                 return ("Request(%s,%s): (#requests, next_index)" % (st["lib"], st["mode"]), (st["nreq"], st["next"]), (g["nreq"], g["next"]))
         elif e[0] == "L":
+            if g["err"] != (1 if e[4] else 0):
+                return ("lookup %s %r: error flag" % (e[1], e[2]), e[4], g["err"])
             if g["found"] != e[3]:
                 return ("lookup %s %r" % (e[1], e[2]), e[3], g["found"])
             if g["nreq"] != 0:
@@ -91,10 +97,10 @@ def compare(beh, exp, got, P, ck):
             if want is None:
                 raise MachineryError("no projection dumped for %s %s" % (ck, st["loaded"]))
             fresh = sum(_idbm.FRESH_BIT[k] for k in st["lk"])
-            obs = (g["nreq"], g["next"], [list(m) for m in g["mods"]], g["fresh"])
-            wantsc = (0, st["next"], [list(m) for m in st["mods"]], fresh)
+            obs = (g["nreq"], g["next"], [list(m) for m in g["mods"]], g["fresh"], g["err"])
+            wantsc = (0, st["next"], [list(m) for m in st["mods"]], fresh, 1 if st["err"] else 0)
             if obs != wantsc:
-                return ("Query after %s: (#requests, next_index, module ranges, fresh bits)" % "".join(st["loaded"]), wantsc, obs)
+                return ("Query after %s: (#requests, next_index, module ranges, fresh bits, error flag)" % "".join(st["loaded"]), wantsc, obs)
             if g["P"] != want:
                 return ("Query after %s: projection" % ",".join(st["loaded"]), want, g["P"])
     return None
@@ -129,7 +135,8 @@ def replay_model(ctx, work, C, P, B):
         d = os.path.join(work, "c%04d" % n)
         os.makedirs(d)
         for lib, fj in c["files"].items():
-            _idbm.write_idb(os.path.join(d, lib + ".in"), lib, fj)
+            if c["content"][lib][-1] != "missing":
+                _idbm.write_idb(os.path.join(d, lib + ".in"), lib, fj)
         cdirs[ck] = d
     B = sorted(B, key=lambda b: json.dumps(b, sort_keys=True))
     batches = [B[i:i + BATCH] for i in range(0, len(B), BATCH)]
@@ -163,17 +170,19 @@ def replay_model(ctx, work, C, P, B):
             ctx.violation("libraries %s, steps %s: %s: %s" % (
                 json.dumps(beh["content"], sort_keys=True), steps_str(beh), what, detail),
                 dict(content=beh["content"], steps=steps_str(beh), what=what, expected=want, observed=obs, script=script,
-                     files={lib: open(os.path.join(cdirs[ck], lib + ".in")).read() for lib in beh["content"]}),
+                     files={lib: open(os.path.join(cdirs[ck], lib + ".in")).read() for lib in beh["content"]
+                            if os.path.exists(os.path.join(cdirs[ck], lib + ".in"))}),
                 classes=classes_of(beh))
     return n, traces, cdirs
 
 
 def libkey(path):
     b = os.path.basename(path)
-    return b[:-3] if b.endswith(".in") else b
+    b = b[:-3] if b.endswith(".in") else b
+    return b[:-8] if b.endswith(".missing") else b
 
 
-def assemble(trace_files, files_of_case, out_path, dumps=None):
+def assemble(trace_files, files_of_case, out_path, dumps=None, bad_of_case=None):
     """Concatenate hook traces into one ndjson for IdbTrace: the harness' Case markers become Case records
     carrying the database files of that execution; file paths become library keys; a Dump record (database by
     raw index, in the spec's record format) follows an execution where the driver produced one."""
@@ -189,15 +198,17 @@ def assemble(trace_files, files_of_case, out_path, dumps=None):
                 ev = json.loads(line)
                 if ev["e"] == "Case":
                     if cur is not None and dumps and cur in dumps:
-                        o.write(json.dumps({"e": "Dump", "db": dumps[cur]}) + "\n"); n += 1
+                        o.write(json.dumps({"e": "Dump", "db": dumps[cur][0], "err": dumps[cur][1]}) + "\n"); n += 1
                     cur = ev["id"]
                     ev = {"e": "Case", "files": files_of_case[cur]}
+                    if bad_of_case:
+                        ev["bad"] = bad_of_case[cur]
                 elif "file" in ev:
                     ev["file"] = libkey(ev["file"])
                 o.write(json.dumps(ev) + "\n")
                 n += 1
             if cur is not None and dumps and cur in dumps:
-                o.write(json.dumps({"e": "Dump", "db": dumps[cur]}) + "\n"); n += 1
+                o.write(json.dumps({"e": "Dump", "db": dumps[cur][0], "err": dumps[cur][1]}) + "\n"); n += 1
     return n
 
 
@@ -331,7 +342,7 @@ def realworld(ctx, work):
             continue
         n += 1
         files_of_case[cid] = {lib: _idbm.model_files(single[(sn, lib)]) for lib in order}
-        dumps[cid] = _idbm.raw_to_model(raws[0])
+        dumps[cid] = (_idbm.raw_to_model(raws[0]), raws[0]["err"])
         finals.setdefault(sn, []).append((order, [x for x in st if x.get("op") == "proj"][-1]["P"], script))
     # 3. order independence, modulo the attribution the rule leaves open (an input predicate: the name is
     #    offered by several libraries in the winning class)
@@ -347,6 +358,11 @@ def realworld(ctx, work):
             win = c if not fd else (g if g else fd)
             if len(win) > 1:
                 multi.add(tn)
+            if len(g) > 1 and sn != "conflict":
+                raise MachineryError("generated set %s unintentionally defines %s fully and globally in %d libraries"
+                                     % (sn, tn, len(g)))
+            if len(g) > 1:
+                ctx.notes.setdefault("full_vs_full_classes", {}).setdefault(sn, []).append(tn)
         ref = normalise(fl[0][1], multi)
         for order, proj, script in fl[1:]:
             if normalise(proj, multi) != ref:
@@ -396,7 +412,8 @@ def lines_of(lines, cid):
 
 
 def steps_str(beh):
-    return " ".join(("R(%s,%s)" % (s["lib"], s["mode"])) if s["op"] == "R" else "Q" for s in beh["hist"])
+    return " ".join(("R(%s,%s%s)" % (s["lib"], s["mode"], "" if s["bad"] == "ok" else "," + s["bad"])) if s["op"] == "R" else "Q"
+                    for s in beh["hist"])
 
 
 def apalache_alloc(ctx, work):
@@ -441,7 +458,7 @@ def run_check(ctx):
         return cfg, res, dump
     C, P, B = {}, {}, []
     jobs = [lambda c=c: model(c) for c in CFGS[ctx.tier]] + [lambda: apalache_alloc(ctx, work)]
-    for out in run.pmap(lambda f: f(), jobs, workers=3):
+    for out in run.pmap(lambda f: f(), jobs, workers=len(jobs)):
         if out is None:
             continue
         cfg, res, dump = out
@@ -457,6 +474,17 @@ def run_check(ctx):
     if not B or not P:
         raise MachineryError("no behaviours dumped")
     phase["tlc"] = round(time.time() - t0, 1); t0 = time.time()
+    ctx.assumptions += [
+        "domain: a SET of database files - every file is requested at most once; requesting the same .in twice is outside "
+        "the claim (the library keeps no record of loaded files: types collapse by true name, functions/wrappers/elements of "
+        "the second copy are added again)",
+        "when two files both define a class fully AND globally the later-loaded definition wins (merge_with): library name "
+        "and member lists of that class depend on the load order; the property only orders fully-defined over forward and "
+        "global over non-global, so the reference accepts any candidate (attribution ignored) - one record per true name, "
+        "global = union, resolved cross references and the kept functions of the losing definition ARE checked; the only "
+        "generated libraries with such a class are the model contents with two 'defg' statuses and the set 'conflict'",
+        "a missing or out-of-date file must set the error flag and leave the database and the other modules' ranges untouched",
+    ]
     ctx.cov["exhaustive"] = True
     ctx.cov["rule"] = ("one case = one complete behaviour (a set of library database files, a sequence of Request(lib, mode) "
                        "and Query steps in which every library is requested, ending in a Query) executed in a fresh process, "
@@ -466,23 +494,50 @@ def run_check(ctx):
     n, traces, cdirs = replay_model(ctx, work, C, P, B)
     def shared(b):
         ct = b["content"]
-        return any(sum(1 for l in ct if ct[l][k] != "absent") >= 2 for k in range(len(next(iter(ct.values())))))
+        return any(sum(1 for l in ct if ct[l][k] != "absent") >= 2 for k in range(len(next(iter(ct.values()))) - 1))
     ctx.cov["distinct_nontrivial"] = len({(json.dumps(b["content"], sort_keys=True), steps_str(b)) for b in B if shared(b)})
     ctx.cov["evaluations"] += n
     ctx.cov["traces_validated_against_impl"] += n
     ctx.notes["model_behaviours_replayed"] = n
     ctx.notes["model_library_sets"] = len(C)
+    def cls(b):
+        rs = [s for s in b["hist"] if s["op"] == "R"]
+        out = set()
+        if len({s["mode"] for s in rs}) > 1:
+            out.add("mixed request modes")
+        qs = [i for i, s in enumerate(b["hist"]) if s["op"] == "Q"]
+        if len(rs) >= 3 and qs and qs[0] >= 3:
+            out.add("three requests pending at the first query")
+            if [s["mode"] for s in rs[:3]] == ["mod", "db", "mod"]:
+                out.add("module, database, module pending")
+        for i, s in enumerate(rs):
+            if 0 < i < len(rs) - 1:
+                if s["bad"] != "ok":
+                    out.add("failing file between two others (%s)" % s["bad"])
+                elif s["n"] == 0 and s["mode"] == "mod":
+                    out.add("empty module-mode file between two others")
+        return out
+    hc = {}
+    for b in B:
+        for k in cls(b):
+            hc[k] = hc.get(k, 0) + 1
+    ctx.notes["history_classes"] = hc
+    need = ["mixed request modes", "module, database, module pending", "failing file between two others (missing)",
+            "failing file between two others (stale)", "empty module-mode file between two others"]
+    if [k for k in need if not hc.get(k)]:
+        raise MachineryError("history classes not generated: %s" % [k for k in need if not hc.get(k)])
     for b in B[:: max(1, len(B) // 4)][:4]:
         ctx.sample(dict(libraries=b["content"], steps=steps_str(b)))
 
     phase["replay"] = round(time.time() - t0, 1); t0 = time.time()
     # ---- trace validation of the replay runs ------------------------------------------------------
-    files_of_case = {}
+    files_of_case, bad_of_case = {}, {}
     tfiles = []
     for tr, cases in traces:
         tfiles.append(tr)
         for cid, beh in cases:
             files_of_case[cid] = C[_idbm.content_key(beh["content"])]["files"]
+            bad_of_case[cid] = {lib: v[-1] for lib, v in beh["content"].items()}
     if not any(os.path.exists(t) and os.path.getsize(t) > 0 for t in tfiles):
         raise MachineryError("the H-idb hooks recorded nothing: is patches/c13-hooks.diff applied to the tree under test?")
     # a fixed stratified part of the batches (the replay comparison above is complete)
@@ -495,7 +550,7 @@ def run_check(ctx):
         if not part:
             continue
         cat = os.path.join(work, "modeltrace-%02d.ndjson" % gi)
-        nev += assemble(part, files_of_case, cat)
+        nev += assemble(part, files_of_case, cat, bad_of_case=bad_of_case)
         groups.append(cat)
     validate(ctx, groups, "replayed model behaviours")
     ctx.notes["trace_events_validated"] = nev
